@@ -1,5 +1,4 @@
 import Ntrip.Proofs.MsmRoundTrip
-import Ntrip.Guards.Msm
 /-!
 # C04 — MSM4/MSM7 messages decode to exactly the encoded header and cell data
 
@@ -48,25 +47,6 @@ theorem view_lists (m : MsmSpec) :
     (msmView m).hdr.sigs = idsOfMask 32 (m.hvals.getD 11 0).toNat ∧
     (msmView m).hdr.cells = cellsOfMask m.cellMask m.nsat m.nsig := ⟨rfl, rfl, rfl⟩
 
-/-- Tie T1: the layouts extracted from the current source are the standard's. -/
-theorem tie_layouts :
-    hdrCols = some hdrStd ∧
-    MsmKind.msm4.satCols = some (satStd .msm4) ∧ MsmKind.msm7.satCols = some (satStd .msm7) ∧
-    MsmKind.msm4.sigCols = some (sigStd .msm4) ∧ MsmKind.msm7.sigCols = some (sigStd .msm7) ∧
-    widthOf hdrStd = 169 ∧ widthOf (satStd .msm4) = 18 ∧ widthOf (satStd .msm7) = 36 ∧
-    widthOf (sigStd .msm4) = 48 ∧ widthOf (sigStd .msm7) = 80 := by
-  repeat' constructor
-  all_goals decide
-
-/-- Tie T1: the cell count (the stride of the field-major signal arrays) comes from the
-    header's cell mask, and the constants of the guards. -/
-theorem tie_stride :
-    Gen.sig4_numSignalCells_source = "header.NumSignalCells" ∧
-    Gen.sig7_numSignalCells_source = "header.NumSignalCells" ∧
-    Gen.sat4_CellLengthInBits = 18 ∧ Gen.sat7_CellLengthInBits = 36 ∧
-    Gen.sig4_GetSignalCells_bitsPerCell = 48 ∧ Gen.sig7_bitsPerCell = 80 ∧
-    Gen.header_minBitsInHeader = 169 ∧ Gen.header_maxLengthOfCellMask = 64 := by decide
-
 /-! ### Non-vacuity (tests): a concrete MSM7 message, two satellites, two signals, three cells,
     an 'invalid' marker, a zero last cell, three padding bytes. -/
 def sample : MsmSpec :=
@@ -88,8 +68,5 @@ example : MsmWF .msm7 sample := by
 example : (msmView sample).hdr.sats = [1, 3] ∧ (msmView sample).hdr.sigs = [2, 3] ∧
     (msmView sample).sigs.flatten.map (fun c => (c.satId, c.sigId, c.vals.headD 0)) =
       [(1, 2, -524288), (1, 3, 7), (3, 3, 0)] := by decide
-
-/-- Tie T1: guards and loop headers of the modelled code, regenerated from the source. -/
-theorem tie_guards_msm : type_of% Ntrip.Guards.msm := Ntrip.Guards.msm
 
 end Ntrip.C04
